@@ -388,8 +388,8 @@ LAYOUTS = ['scalar', '2d', 'binned', 'common_tof']
 
 
 def plan(tier, seed):
-    n = 8 if tier == 'quick' else 16
-    return [{'cases': 600 if tier == 'quick' else 20000, 'insitu': 48 if tier == 'quick' else 1500}
+    n = 16
+    return [{'cases': 1000 if tier == 'quick' else 20000, 'insitu': 60 if tier == 'quick' else 1500}
             for _ in range(n)]
 
 
